@@ -86,7 +86,8 @@ DiffSummaries(rec) ==
       obsTeam == {o.team[i] : i \in DOMAIN o.team}
       obsTeamJ == {t \in obsTeam : t.name \notin fin.gone}
       expAge == {[name |-> p, date |-> live[p].first] : p \in judged}
-      obsAgeJ == {a \in {o.age[i] : i \in DOMAIN o.age} : a.name \notin fin.gone}
+      obsAge == {[name |-> o.age[i].name, date |-> o.age[i].date] : i \in DOMAIN o.age}
+      obsAgeJ == {a \in obsAge : a.name \notin fin.gone}
       eff == Eff(rec)
       facts == SelectSeq(rec.facts, LAMBDA c : ~c.merge /\ c.changes # <<>>)
       auths == {facts[i].author : i \in DOMAIN facts}
@@ -112,7 +113,7 @@ DiffSummaries(rec) ==
         {Item("C15", "team-missing-or-wrong", t.name, {}) : t \in expTeam \ obsTeam} \cup
         {Item("C15", "team-unexpected", t.name, {}) : t \in obsTeamJ \ expTeam} \cup
         (IF NonIncreasing(o.team, LAMBDA t : t.revs) THEN {} ELSE {Item("C15", "team-not-sorted", "", {})}) \cup
-        {Item("C15", "age-missing-or-wrong", a.name, {}) : a \in expAge \ {o.age[i] : i \in DOMAIN o.age}} \cup
+        {Item("C15", "age-missing-or-wrong", a.name, {}) : a \in expAge \ obsAge} \cup
         {Item("C15", "age-unexpected", a.name, {}) : a \in obsAgeJ \ expAge} \cup
         {Item("C15", "top-missing-or-wrong", t.name, {}) : t \in expTop \ obsTop} \cup
         {Item("C15", "top-unexpected", t.name, {}) : t \in obsTop \ expTop} \cup
